@@ -157,6 +157,11 @@ def discover():
             p = sig.parameters.get("inplace")
             if p is not None and p.default is False:
                 plain.append((cls, name))
+            elif p is not None and p.default is True:
+                # in-place by documented default: judged only when the caller
+                # asks for inplace=False explicitly
+                plain.append((cls, name))
+                DEFAULT_INPLACE.add((cls.__name__, name))
     return classes, plain, pairs
 
 
@@ -171,6 +176,7 @@ READONLY = ["copy", "contract", "to_dense", "norm", "overlap", "select", "partit
             "partial_trace", "to_qarray", "as_network", "split", "draw_tree_span"]
 
 _DISC = None
+DEFAULT_INPLACE = set()
 
 
 def install(rec):
@@ -184,8 +190,10 @@ def install(rec):
         entry = f"{clsname}.{name}"
         fpf = fp_virtual if name in ("__or__", "__ror__") else fp_obj
 
+        dflt = (clsname, name) in DEFAULT_INPLACE
+
         def pre(self, *a, **k):
-            if not is_op and k.get("inplace", False):
+            if not is_op and k.get("inplace", dflt):
                 return None
             if rec.depth("nm") > 0:
                 return None   # judged at the outermost plain call only
@@ -850,6 +858,10 @@ def wl_pairs_mps(rng, rec, tier):
         rc = _MR[p](rng, x)
         names.append(p)
         _run_pair(rng, rec, x, p, i, rc[0], rc[1])
+    # methods that are in-place by default, asked explicitly not to be
+    for f in (lambda: x.expand_bond_dimension(int(rng.integers(3, 6)), inplace=False),
+              lambda: x.left_canonicalize(inplace=False), lambda: x.right_canonicalize(inplace=False)):
+        gen.attempt(f)
     # network level operators
     y = qtn.MPS_rand_state(L, 2, seed=int(rng.integers(1 << 30)))
     for f in (lambda: x + y, lambda: x - y, lambda: x * 2.0, lambda: x / 2.0, lambda: -x,
